@@ -385,6 +385,24 @@ func execAPI(c *ctx, rng *rand.Rand, pl *apiPool, s skelStep, small []xy, blind 
 			pl.sc[s.S].Add(pl.sc[s.P], pl.sc[s.Q])
 		case "sc.Multiply":
 			pl.sc[s.S].Multiply(pl.sc[s.P], pl.sc[s.Q])
+		case "sc.Subtract":
+			pl.sc[s.S].Subtract(pl.sc[s.P], pl.sc[s.Q])
+		case "sc.Square":
+			pl.sc[s.S].Square(pl.sc[s.P])
+		case "sc.Sum":
+			pl.sc[s.S].Sum(pl.sc[s.P], pl.sc[s.Q], pl.sc[s.T])
+		case "sc.Product":
+			pl.sc[s.S].Product(pl.sc[s.P], pl.sc[s.Q], pl.sc[s.T])
+		case "sc.CondNegate":
+			pl.sc[s.S].ConditionalNegate(pl.sc[s.P], ctrlWord(s.C, s.S+s.P+c.n))
+		case "sc.CondSelect":
+			pl.sc[s.S].ConditionalSelect(pl.sc[s.P], pl.sc[s.Q], ctrlWord(s.C, s.S+s.P+c.n))
+		case "sc.Equal":
+			reply = int(pl.sc[s.P].Equal(pl.sc[s.Q]))
+		case "sc.IsZero":
+			reply = int(pl.sc[s.P].IsZero())
+		case "sc.IsGreaterThanHalfN":
+			reply = int(pl.sc[s.P].IsGreaterThanHalfN())
 		case "sc.Negate":
 			pl.sc[s.S].Negate(pl.sc[s.P])
 		case "sc.Invert":
